@@ -8,7 +8,7 @@ BASE_OFF = "for m in $(cat /w/out/gomods.txt); do MF=$(cd /repo/$m && . /w/out/g
 # id -> (category, text, design_ref, level_note, technique)
 CHECKS = {
  "C20": ("fault_enumeration",
-         "Model-based state-machine testing with injected faults (rapid): histories of Find/Prepare/Save/Load over a scripted world (random dependency DAG, version bumps, fingerprints incl. the special values, deleted export files, failing and malformed listings through a stub `go` first on PATH that logs every call), 11 kinds of cache-file damage at generated positions followed by Load, and concurrent Finds in a -race build. Two oracles: a reference model of the cache (data, error, exact number of listing runs per Find) and content freshness (with honest fingerprints the served bytes must be the current export data). Plus a no-spawn search over damaged files that Load must survive. Fault enumeration is by sampling the (fault kind x position x history) space, not exhaustive.",
+         "Model-based state-machine testing with injected faults (rapid): histories of Find/Prepare (one and several packages, incl. the compound 'prepare several, change a dependency of one, look it up')/Save/Load over a scripted world (random dependency DAG, version bumps, fingerprints incl. the special values, deleted export files, failing and malformed listings through a stub `go` first on PATH that logs every call), 11 kinds of cache-file damage at generated positions followed by Load, and concurrent Finds in a -race build. Two oracles: a reference model of the cache (data, error, exact number of listing runs per Find) and content freshness (with honest fingerprints the served bytes must be the current export data). Plus a no-spawn search over damaged files that Load must survive. Fault enumeration is by sampling the (fault kind x position x history) space, not exhaustive.",
          "DESIGN.md §7 C20",
          "Trusts the stub's rendering of `go list -export` output, os file semantics, and that paths/fingerprints contain no tab or newline. Damage that yields a well-formed file describing different plausible entries (e.g. one flipped byte inside an export path) is outside 'malformed' and only checked for panics.",
          "property-based stateful testing against a reference model with fault injection (rapid), race detector"),
@@ -28,9 +28,9 @@ CHECKS = {
          "Trusts go/types; call targets and generic-function bases are compared only through the call / instantiation result; expressions go/types cannot re-evaluate standalone are skipped (counted).",
          "property-based testing: generated programs, per-subexpression differential against go/types"),
  "C16": ("exploration",
-         "Stateful invariant checking over generated well-nested, error-free operation histories (deep-nesting program profile, depth up to 8+): after every builder operation the operand-stack delta must equal the documented arity, after every completed statement the stack must be back at the statement's starting length, at every End the scope pointer, current function, vblock flag, stack length and the visible labels of the enclosing function must equal a snapshot taken when the construct was opened, and at the end the stack is empty, the scope is the package scope and no function is current. ~10^6 operations checked per quick run. Sampling.",
+         "Stateful invariant checking over generated well-nested, error-free operation histories (deep-nesting program profile, depth up to 8+): after every builder operation the operand-stack delta must equal the documented arity, after every completed statement the stack must be back at the statement's starting length, at every End the scope pointer, current function, vblock flag, stack length and the visible labels of the enclosing function must equal a snapshot taken when the construct was opened, a skipped constant expression statement injected before every third statement must leave the stack unchanged, and at the end the stack is empty, the scope is the package scope and no function is current. ~10^6 operations checked per quick run. Sampling.",
          "DESIGN.md §7 C16",
-         "The arity table is the harness's (h/drive call sites); it was validated against the unchanged tree. Uses only public observers (InternalStack().Len, Scope, Func, InVBlock, LookupLabel) - no hook needed. Error-recovery histories are outside the quantifier.",
+         "The arity table is the harness's (h/drive call sites); it was validated against the unchanged tree. Uses only public observers (InternalStack().Len, Scope, Func, InVBlock, LookupLabel) - no hook needed. Error-recovery histories are outside the quantifier; an imbalance observed on the error-free prefix of a history that a later panic aborts is reported.",
          "property-based stateful testing: invariants checked after every step of generated operation histories"),
  "C17": ("exploration",
          "Hostile-input search under three configurations (default, XGo-builtin, bare): a deterministic operation x operand-kind grid (every template with every ill-typed operand kind; thorough tier enumerates it completely), random extreme constant trees, nesting up to 3000 deep, and multi-mutation mutants of valid programs. A recovered panic carrying a runtime.Error (or a non-error, non-string value) is a violation; the worker has a 6 GiB address-space limit and a 180 s per-case watchdog, and a worker death is a violation only when it reproduces with the case run alone; nesting families must not need more than x160 the CPU time for x4 the size (process CPU time, best of three measurements; a cubic algorithm needs x64).",
@@ -53,7 +53,7 @@ CHECKS = {
          "go/types and go/constant are the oracle; both sides compute with go/constant, so agreement in its last bits is by construction. unsafe sizes follow go/types' gc sizes for the host.",
          "property-based testing: grammar-based constant expressions, per-subexpression differential against go/types/go/constant"),
  "C11": ("exploration",
-         "One extension construct per case, driven through the public CodeBuilder API inside a function whose package-level context is ordinary Go: all 49 registered builtin-type methods on variable / literal / named / call-result / chained receivers with variable and constant arguments in assignment, definition, if / for / switch and argument contexts; member chains of 1-3 steps on string-keyed maps, named maps (incl. a method that shadows a key), struct fields, call results, pointers to maps and any values, read in nine statement contexts (incl. conditions with and without a user init statement, loop bodies, closures, range and type-switch headers), assigned through, and in the comma-ok form; bool-to-number casts of variables, named bools, calls, comparisons and constants to every basic number type; optional parameters (0-2 positional, 1-3 optional of 18 types, variadic tail, methods, another package's functions marked by name) with every argument count incl. too few / too many; lower-case aliases and auto-properties on value, pointer, embedded and interface receivers incl. exact-name shadowing; enumerators of every documented shape (Next with 1 or 2 values, pointer receivers, legacy name, iterator functions with 0-2 values, named function types) with every loop-variable form and break / continue / nested bodies; inline closure calls with 0-2 parameters, variadic tails (packed and spread), 0-2 results, early return, side-effecting arguments; big integer / rational literals around the int64, uint64 and 128-bit boundaries. Oracle: the output must type-check under go/types and its canonical typed dump (locals and generated labels alpha-renamed) must equal the dump of a reference lowering written in the harness as Go source from the documentation; big literals are evaluated from the emitted expression with math/big and must equal the written value exactly. Constructs the documentation does not define (marked in the plan) must be rejected or yield Go that type-checks.",
+         "One extension construct per case, driven through the public CodeBuilder API inside a function whose package-level context is ordinary Go: all 49 registered builtin-type methods on variable / literal / named / call-result / chained receivers with variable and constant arguments in assignment, definition, if / for / switch and argument contexts; member chains of 1-3 steps on string-keyed maps, named maps (incl. a method that shadows a key), struct fields, call results, pointers to maps and any values, read in nine statement contexts (incl. conditions with and without a user init statement, loop bodies, closures, range and type-switch headers), assigned through, and in the comma-ok form; bool-to-number casts of variables, named bools, calls, comparisons and constants to every basic number type; optional parameters (0-2 positional, 1-3 optional of 18 types, variadic tail, methods, another package's functions marked by name) with every argument count incl. too few / too many; lower-case aliases and auto-properties on value, pointer, embedded and interface receivers incl. exact-name shadowing; enumerators of every documented shape (Next with 1 or 2 values, pointer receivers, legacy name, iterator functions with 0-2 values, named function types) with every loop-variable form and break / continue / nested bodies; inline closure calls with 0-2 parameters, variadic tails (packed and spread), 0-2 results, early return, side-effecting arguments; big integer / rational literals around the int64, uint64 and 128-bit boundaries; tuples (named and unnamed, through pointers): members by ordinal and by name, read and assigned, tuple literals, tuple casts. Oracle: the output must type-check under go/types and its canonical typed dump (locals and generated labels alpha-renamed) must equal the dump of a reference lowering written in the harness as Go source from the documentation; big literals are evaluated from the emitted expression with math/big and must equal the written value exactly. Constructs the documentation does not define (marked in the plan) must be rejected or yield Go that type-checks.",
          "DESIGN.md §7 C11",
          "The reference lowerings are the documented desugarings (doc comments, repository examples); where two shapes have the same meaning (assertion in the init clause or before the statement; result variables assigned together or one by one) each is accepted. go/types is the oracle for type-correctness. Constant boolean folding is left to C02.",
          "property-based testing: per-feature construct generators, differential against independently written reference lowerings (canonical typed dump) and a math/big evaluator"),
@@ -63,7 +63,7 @@ CHECKS = {
          "go/parser and go/format (go1.23) define 'parses back' and 'canonical'. Position-less comments are supplied the way the repository's tests supply them (text beginning with a line break); comments carrying source positions (XGo's usage) are not asserted.",
          "property-based round-trip testing (generated + corpus inputs), metamorphic gofmt fixed-point oracle"),
  "C13": ("exploration",
-         "Types are drawn from a recursive generator (depth <= 5 and beyond through nesting: all basic kinds, unsafe.Pointer, local named/alias/generic and imported named types, pointers, slices, arrays, maps, channels of every direction, functions, structs with embedding and awkward tags, interfaces, instantiations, type parameters), built with the go/types API inside a builder package, declared through the builder as variable type, alias, parameter, variadic parameter, result and generic-function parameter; the emitted package is type-checked and the canonical form of every declared type must equal that of the original. Sampling.",
+         "Types are drawn from a recursive generator (depth <= 5 and beyond through nesting: all basic kinds, unsafe.Pointer, local named/alias/generic and imported named types, pointers, slices, arrays, maps, channels of every direction, functions, structs with embedding and awkward tags, interfaces, instantiations, type parameters), built with the go/types API inside a builder package, declared through the builder as variable type, alias, parameter, variadic parameter, result and generic-function parameter; the emitted package is type-checked and the canonical form of every declared type must equal that of the original. Sampling. A second part generates constraint interfaces (one embedded union of 1-4 terms over 21 term types with ~ on any term, optionally comparable, a method, an embedded interface), declared as the underlying type of a type declaration and as the constraint of a type parameter: the emitted interface must denote the same type set (canonical form of the union, ~ per term).",
          "DESIGN.md §7 C13",
          "go/types is the oracle of type identity; h/oracle.TypeKey is the canonical form; types whose go/types reference rendering is itself rejected are discarded (counted).",
          "property-based round-trip testing (generate type -> emit through builder -> re-check -> compare canonical forms)"),
@@ -75,15 +75,15 @@ CHECKS = {
  "C08": ("exploration",
          "Generated type graphs (structs and interfaces with colliding field/method names at equal and different embedding depths, value and pointer embedding, value/pointer receivers, a struct and an interface of another package with exported and unexported members) crossed with a selector name and an operand mode (variable, pointer, call result, map element, assignment target, method expression T.m / (*T).m, method value), one selector per program, driven through the builder: accept/reject must agree with go/types; for accepted selectors the expression type, the selection (kind + index path, via the canonical dump of the emitted code) and the object handed to Recorder.Member must agree. Sampling.",
          "DESIGN.md §7 C08",
-         "go/types is the specification of selector resolution; empty interfaces are excluded (member access on `any` is an XGo extension, C11).",
+         "go/types is the specification of selector resolution; methods are variadic or not (visible in method values and method expressions); empty interfaces are excluded (member access on `any` is an XGo extension, C11).",
          "property-based testing: generated type graphs and selectors, differential against go/types"),
  "C18": ("exploration",
-         "Rounds of 16-48 different generated programs are built simultaneously, each on its own goroutine with its own FileSet, Package and importer, released together, under varying GOMAXPROCS, in a -race build; the runner turns any data-race report of a worker into a violation, and every program's output must be byte-equal to its sequential build. Exploration of the schedules that occur, not of all interleavings: the harness does not own the Go scheduler.",
+         "Rounds of 16-48 different generated programs are built simultaneously, each on its own goroutine with its own FileSet, Package and importer, each registering extra methods in its own builtin-type tables (as front ends do), released together, under varying GOMAXPROCS, in a -race build; the runner turns any data-race report of a worker into a violation, every program's output must be byte-equal to its sequential build, and a method registered in one package's builtin-type table must not be visible in another package (leak probe). Exploration of the schedules that occur, not of all interleavings: the harness does not own the Go scheduler.",
          "DESIGN.md §7 C18, §11",
          "Relies on the Go race detector (reports unsynchronised conflicting accesses that actually happen in the observed execution). A write to a shared singleton that every build performs is observed with near certainty; a race that needs a rare program feature on two goroutines at once may be missed.",
          "concurrent stress testing under the race detector with a sequential-equivalence oracle"),
  "C15": ("exploration",
-         "Generated multi-file packages that put at least two items into every unordered collection the builder keeps (imports per file, files, overload families and overloaded named types of imported XGo packages, XGo dependency packages of exported signatures, commented statements) are built repeatedly: K times with a fresh importer per build, K times with one importer shared by all builds (K = 8 quick, 24 thorough), and in two child processes for every 8th history; all written files must be byte-identical. Metamorphic repetition, sampling of histories.",
+         "Generated multi-file packages that put at least two items into every unordered collection the builder keeps (imports per file, files, overload families and overloaded named types of imported XGo packages, XGo dependency packages of exported signatures incl. two with the same package name, 2-3 blank imports per file, commented statements) are built repeatedly: K times with a fresh importer per build, K times with one importer shared by all builds (K = 8 quick, 24 thorough), and in two child processes for every 8th history; all written files must be byte-identical. Metamorphic repetition, sampling of histories.",
          "DESIGN.md §7 C15",
          "Go randomises map iteration per range statement, so K repetitions miss a two-way order dependence with probability 2^-(K-1); dependence on pointer values or time would show as differences between processes.",
          "property-based metamorphic testing: repeated builds of generated histories, within and across processes"),
@@ -98,7 +98,7 @@ CHECKS = {
          "go/types (go1.23) is the oracle; inference itself is go/types' routine reached through linkname, the adapter around it is what is tested.",
          "property-based testing: generated generic calls, differential against go/types (verdict, Info.Instances, types)"),
  "C06": ("exploration",
-         "Generated overload families in a synthetic XGo package (package functions by __k suffix, XGoo_ tables with explicit names and empty slots, methods on value and pointer receivers; fixed, variadic, generic and untyped-constant-accepting parameters; each candidate returns its own result type) crossed with generated argument lists (typed values, boundary untyped constants, nil, function literals, a generic function value, typed constants). Reference model: candidate k is applicable iff go/types accepts an explicit call of it; expected = least applicable k. The emitted callee, the Recorder.Call object and the reported result type must be candidate expected's, none applicable => rejected, the emitted call type-checks, and the emitted argument expressions equal those of a direct call of the chosen candidate built in a fresh package (no residue of rejected candidates).",
+         "Generated overload families of 1-6 and 11-14 candidates (so that the letters of the 0-9a-z suffix alphabet are reached) in a synthetic XGo package (package functions by __k suffix, XGoo_ tables with explicit names and empty slots, methods on value and pointer receivers; fixed, variadic, generic and untyped-constant-accepting parameters; each candidate returns its own result type; candidates with a big-number parameter followed by a never-satisfiable parameter, which rewrite an untyped constant argument before they fail, under the XGo configuration) crossed with generated argument lists (typed values, boundary untyped constants, nil, function literals, a generic function value, typed constants). Reference model: candidate k is applicable iff go/types accepts an explicit call of it; expected = least applicable k. The emitted callee, the Recorder.Call object and the reported result type must be candidate expected's, none applicable => rejected, the emitted call type-checks, and the emitted argument expressions equal those of a direct call of the chosen candidate built in a fresh package (no residue of rejected candidates).",
          "DESIGN.md §7 C06",
          "go/types decides applicability; suffix families are contiguous from 0 (documented precondition). Interface-method and operator overloads and overloaded named types are exercised by C15's histories but not modelled here.",
          "property-based testing with a reference model of overload resolution derived from go/types; metamorphic no-residue relation"),
